@@ -25,7 +25,10 @@ ASSUMPTIONS = [
     "_greedy_fallback) and float bin loads are mirrored on Lean `Float` (same IEEE doubles) and tied by "
     "R_trace only; the theorems are about the same generic code instantiated at Rat",
     "the 11/9*OPT+6/9 bound is not proved in Lean; it is checked per instance against `minBins`, a bounded "
-    "exhaustive oracle evaluated in the driver (not a theorem subject)",
+    "exhaustive oracle evaluated in the driver: its packing is submitted to the verified checker chkPack, so OPT <= "
+    "minBins is certified on every instance (an alarm `k > 11/9*minBins+6/9` is therefore sound); minimality of "
+    "minBins is certified only when it meets the proved lower bound ceil(sum/cap) (counted in the histogram), "
+    "otherwise it rests on the exhaustive search",
     "solve_bin_pack's algorithm-name parsing is done by the harness (flags useBest/decreasing go to the model)",
 ]
 RULE = ("knapsack: <=12 items (thorough <=16), values/weights/capacity integers or decimals k/4, k/10, with zero "
@@ -384,7 +387,7 @@ def judge_knap(ctx, case, out, reply):
 def judge_pack(ctx, case, out, reply):
     fn = "solve_bin_pack"
     rep = {"case": case, "impl": out, "model": reply}
-    (f_status, f_asg, f_k), (r_status, r_asg, r_k, r_chk), chk_impl, opt, lb = reply
+    (f_status, f_asg, f_k), (r_status, r_asg, r_k, r_chk), chk_impl, optw, lb = reply
     valid = pack_valid(case)
     n = len(case["sizes"])
     ub, dec = case["flags"]
@@ -408,6 +411,13 @@ def judge_pack(ctx, case, out, reply):
         return
     if r_status == "ValueError" or (n and not r_chk):
         raise RuntimeError(f"rational packing model fails its own verified checker on a valid case: {case}")
+    opt = None
+    if optw is not None:
+        opt, _witness, w_ok = optw
+        if not w_ok:
+            raise RuntimeError(f"oracle packing rejected by the verified checker: {case} {optw}")
+        ctx.count("pack:optimum_certified_by_lower_bound" if opt == max(lb, 1 if len(case["sizes"]) else 0)
+                  else "pack:optimum_minimality_by_exhaustive_oracle")
     if not r["shape"]:
         ctx.fail(fn, "bad_solution_shape", f"solution is not a tuple of non-negative ints: {r['sol']}", rep)
         ctx.case(canon, False)
@@ -476,8 +486,16 @@ def run_cases(ctx, cases):
         (judge_knap if c["fn"] == "knapsack" else judge_pack)(ctx, c, o, rp)
 
 
+MISSING = ["ffd_11_9_bound: the 11/9*OPT+6/9 guarantee of the decreasing heuristics (Dosa) is not attempted in Lean; "
+           "checked per instance against a certified upper bound on OPT",
+           "minBins_minimal: minimality of the exhaustive oracle when it exceeds ceil(sum/cap)",
+           "the floating-point front end of solve_knapsack is mirrored on Float, not proved (knapsack_scaled_optimal "
+           "covers its exact-arithmetic idealisation)"]
+
+
 def run(ctx, budget):
     ctx.cov["rule"] = RULE
+    ctx.cov["missing_theorems"] = MISSING
     cases = list(edge_cases()) + [c["case"] for c in core.load_corpus("C16")]
     n = 1200 * budget
     big = ctx.tier == "thorough"
@@ -489,4 +507,5 @@ def run(ctx, budget):
 
 def replay(ctx, body):
     ctx.cov["rule"] = RULE
+    ctx.cov["missing_theorems"] = MISSING
     run_cases(ctx, [body["case"]])
